@@ -33,7 +33,7 @@ ASSUMPTIONS = [
     "_create_odesys parameter_expressions are modelled for string-named rate constants only",
 ]
 
-QUICK = ["main_q", "feeds_q", "sys_q", "full_q", "zero_q"]
+QUICK = ["main_q", "feeds_q", "full_q", "zero_q"]
 THOROUGH = ["cfg_t", "comp_t", "sys_t", "sys3_t", "full_t", "orders_t", "const_t", "constw_t", "sym_t", "uk2_t", "feedmap_t", "hist_t", "forms_t", "zero_t"]
 # coverage (vacuity guard) is read on the smallest slice; it takes all four actions
 ACTIONS = {"full_q": ["OAdd", "OState", "OFeed", "GenBuild"], "full_t": ["OAdd", "OState", "OFeed", "GenBuild"]}
@@ -254,7 +254,7 @@ def run(ctx):
         ctx.counters["cases_" + sl] = len(res.cases)
     ctx.exhaustive = True
     # code -> spec: seeded systems and the calls of the repository's own tests, validated in one batch
-    t1, judge1 = _trace_direction(ctx, 300 if ctx.quick else 6000)
+    t1, judge1 = _trace_direction(ctx, 200 if ctx.quick else 4000)
     t2, judge2 = _suite_direction(ctx)
     verdicts = ctx.validate_traces("OdeBuildTrace", "OdeBuildTrace.cfg", t1 + t2)
     judge1(verdicts[:len(t1)])
